@@ -140,6 +140,7 @@ TABLE = [
     ("t:rcs", 2, 2), ("t:rpauli", 2, 1), ("t:rps", 2, 1), ("t:rpm", 3, 1), ("t:rcs", 3, 1), ("t:rpair", 3, 1),
     ("t:rcm", 4, 2), ("rps", 2, 3), ("rps", 1, 1), ("t:rps", 2, 1), ("rpm", 6, 1), ("rpauli", 6, 1), ("rcs", 5, 1),
     ("rcs", 6, 1), ("rps", 5, 1), ("t:rcm", 5, 1), ("rcm", 4, 2), ("rpm", 4, 1), ("t:rpauli", 6, 2), ("t:rpm", 5, 1),
+    ("rcm", 8, 1), ("rcs", 8, 1), ("rpm", 9, 1), ("t:rcm", 7, 1),
 ]
 
 
